@@ -50,6 +50,8 @@ pub struct Expect {
 #[derive(Clone, Debug, PartialEq)]
 pub enum Via {
     SameFile,
+    /// imported into the using file itself (a test module importing a fixture)
+    OwnImport,
     ConftestOwn(String),
     ConftestImport(String),
     WorkspacePlugin,
@@ -201,12 +203,14 @@ impl<'a> Model<'a> {
         let Some(f) = self.spec.file(file) else { return out };
         // last-assignment-wins for pytest_plugins
         let last_plugins = f.items.iter().rposition(|i| matches!(i, Item::Plugins { .. }));
+        let mut plugins: BTreeMap<String, BTreeSet<usize>> = BTreeMap::new();
         for (idx, it) in f.items.iter().enumerate() {
             match it {
+                // import statements are bindings: a later one rebinds the name (Python semantics, hence what pytest injects)
                 Item::Star { target: Some(t), .. } => {
                     if self.files.contains(t) {
                         for (n, s) in self.exported(t, visiting) {
-                            out.entry(n).or_default().extend(s);
+                            out.insert(n, s);
                         }
                     }
                 }
@@ -215,7 +219,7 @@ impl<'a> Model<'a> {
                         let ex = self.exported(t, visiting);
                         for n in names {
                             if let Some(s) = ex.get(n) {
-                                out.entry(n.clone()).or_default().extend(s.iter().copied());
+                                out.insert(n.clone(), s.clone());
                             }
                         }
                     }
@@ -224,13 +228,17 @@ impl<'a> Model<'a> {
                     for t in targets.iter().flatten() {
                         if self.files.contains(t) {
                             for (n, s) in self.exported(t, visiting) {
-                                out.entry(n).or_default().extend(s);
+                                plugins.entry(n).or_default().extend(s);
                             }
                         }
                     }
                 }
                 _ => {}
             }
+        }
+        // pytest_plugins registers modules; it binds nothing and shadows nothing in this file's namespace
+        for (n, s) in plugins {
+            out.entry(n).or_insert(s);
         }
         out
     }
@@ -247,6 +255,13 @@ impl<'a> Model<'a> {
         let same: Vec<usize> = self.defs_in(file, name).into_iter().filter(|i| Some(*i) != exclude).collect();
         if let Some(best) = same.iter().copied().max_by_key(|i| self.defs[*i].line) {
             return Expect { accept: [best].into_iter().collect(), via: Via::SameFile, none_ok: false };
+        }
+        // 1b. fixtures the using module imports itself (a test module doing `from .helpers import fix`)
+        if !file.ends_with("conftest.py") {
+            let imp: BTreeSet<usize> = self.imports_of(file).get(name).cloned().unwrap_or_default().into_iter().filter(|i| Some(*i) != exclude).collect();
+            if !imp.is_empty() {
+                return Expect { accept: imp, via: Via::OwnImport, none_ok: false };
+            }
         }
         // 2. conftest.py files walking up
         // `optional`: definitions that a module on the import chain star-imports but shadows with the
@@ -276,10 +291,8 @@ impl<'a> Model<'a> {
                     let mut accept = optional.clone();
                     if let Some(last) = own.iter().copied().max_by_key(|i| self.defs[*i].line) {
                         // the statement leaves own-vs-imported open when a conftest does both
+                        // a name defined twice in the conftest: the later `def` rebinds it
                         accept.insert(last);
-                        if own.len() > 1 {
-                            accept.extend(own.iter().copied());
-                        }
                     }
                     accept.extend(imp);
                     return Expect { accept, via, none_ok: false };
